@@ -9,12 +9,14 @@ if [ ! -d $M ]; then   # rebuild a scratch copy from /repo + patch
   rm -rf /tmp/benign-$name; mkdir -p /tmp/benign-$name; cp -r /repo/src /tmp/benign-$name/src; (cd /tmp/benign-$name && patch -p1 -s < $S/patch.diff) || exit 3
   SRC=/tmp/benign-$name/src
 fi
-cd /verif; res=""
+T=/tmp/benign-v-$name; SNAP=$T/verif; mkdir -p $SNAP; rsync -a --exclude work --exclude evidence --exclude replays --exclude seeded --exclude benign --exclude .git /verif/ $SNAP/   # the machinery as it is now (immune to later edits)
+cd $SNAP; res=""
 for c in ${2:-C01 C02 C03 C04 C05 C06 C07 C08 C09 C10 C11 C12 C13 C14 C15 C16 C17 C18 C19 C20}; do
   out=$(VERIF_SCRATCH=/tmp/benign-v-$name MQTT_SRC=$SRC ./check $c --tier quick 2>&1); rc=$?
   echo "$c rc=$rc $(echo "$out" | grep -v '^NOTE' | tail -1 | cut -c1-140)"; [ $rc -ne 0 ] && echo "$out" | grep "^trace\|^record\|^NOTE" | head -4 | cut -c1-250
   res="$res $c:$rc"
 done
-echo "$res" > $S/result.txt
+cd /verif
+[ -z "$2" ] && echo "$res" > $S/result.txt
 rm -rf /tmp/benign-$name /tmp/benign-v-$name
 echo "RESULT $name$res"
